@@ -38,6 +38,12 @@ func runC03(c *core.Ctx) {
 		checkMultiset(c, "ABS5", msSite{rel: s.rel, fn: s.fn, callback: true, countField: "OverallRecordCount"}, ids)
 	}
 	c.Floor("ABS5", 14, "2 group-by nodes × 7 cases")
+	c.Rule("USERS", "SimpleGroupBy keys its groups with Compare-equality (NULL = NULL) and the hash of the whole key")
+	if checkHashmapSites(c, map[string]bool{"execution/nodes.(*SimpleGroupBy).Run": true}) != 1 {
+		c.Unknown("USERS", "execution/nodes.(*SimpleGroupBy).Run/hashmap.New", 0, "hashmap site not found")
+	}
+	// the ordered group-by keys its tree with GroupKey.Less → CompareValueSlices (C09 ABS1L)
+	checkCompareValueSlices(c)
 	// output paths
 	if fn := p.Func("execution/nodes", "(*SimpleGroupBy).Run"); fn != nil {
 		var lit *ast.FuncLit
